@@ -52,9 +52,15 @@ CInit == /\ clo \in [kind : ClosKinds, flag : BOOLEAN, sigma2 : {Unset}, pot : {
          /\ pot = [kind |-> "HardSphere", sigma2 |-> Unset, rcut2 |-> 0, shift |-> FALSE]
          /\ dia = <<2, 2>>
          /\ last = [act |-> "Init"]
-CSetPotential(f) == /\ clo' = [clo EXCEPT !.pot = f]
-                    /\ last' = [act |-> "SetPotential", fam |-> f]
-                    /\ UNCHANGED <<pot, dia>>
+\* The closure's potential is an ARRAY the user owns.  Three ways its values change, all leading to the same abstract state
+\* "the closure's potential is f": a new array is assigned ("new"); the user refills the array he assigned before and assigns
+\* it again ("refill", a sweep re-using one buffer); the user modifies that array in place and assigns nothing ("inplace",
+\* e.g. closure.potential *= 2).  The relation must hold for the values the potential has NOW in all three.
+Hows == {"new", "refill", "inplace"}
+CSetPotential(f, how) == /\ (how # "new" => clo.pot # "unset")
+                         /\ clo' = [clo EXCEPT !.pot = f]
+                         /\ last' = [act |-> "SetPotential", fam |-> f, how |-> how]
+                         /\ UNCHANGED <<pot, dia>>
 CSetSigma(s) == /\ clo' = [clo EXCEPT !.sigma2 = s]
                 /\ last' = [act |-> "SetSigma", sigma2 |-> s]
                 /\ UNCHANGED <<pot, dia>>
@@ -66,7 +72,7 @@ CCalculate(gf) ==
                ELSE IF clo.flag /\ clo.sigma2 = Unset THEN [act |-> "Calculate", gamma |-> gf, raises |-> "some"]
                ELSE [act |-> "Calculate", gamma |-> gf, raises |-> "none",
                      branch |-> [i \in Pts |-> ClosBranch(clo, i)]]
-CNext == \/ \E f \in PotFamilies : CSetPotential(f)
+CNext == \/ \E f \in PotFamilies, how \in Hows : CSetPotential(f, how)
          \/ \E s \in Sigmas : CSetSigma(s)
          \/ \E gf \in GammaFamilies : CCalculate(gf)
 
